@@ -443,11 +443,19 @@ void cmdTransform(const Msg& req, Msg& resp)
     applySettings(t, req);
     if (req.geti("install")) installTwice(t);
     runTransform(t, req, resp);
+    if (req.geti("followup") >= 2)
+    {
+        // C03: the same request once more on the same transformer (caches sized or keyed by the previous stylesheet / source, which
+        // have been destroyed in the meantime, must not be consulted) ...
+        runTransform(t, req, resp, "g.");
+    }
     if (req.geti("followup"))
     {
-        // C03: the transformer must stay usable
+        // ... and the transformer must stay usable for a known-good transformation that counts, numbers, sorts and uses a key
         Msg f;
-        f.add("xsl", "<xsl:stylesheet version='1.0' xmlns:xsl='http://www.w3.org/1999/XSL/Transform'><xsl:output omit-xml-declaration='yes'/><xsl:template match='/'><ok><xsl:value-of select='count(//*)'/></ok></xsl:template></xsl:stylesheet>");
+        f.add("xsl", "<xsl:stylesheet version='1.0' xmlns:xsl='http://www.w3.org/1999/XSL/Transform'><xsl:output omit-xml-declaration='yes'/><xsl:key name='k' match='*' use='name()'/>"
+                     "<xsl:template match='/'><ok><xsl:value-of select='count(//*)'/></ok><n><xsl:for-each select='//*'><xsl:sort select='name()' order='descending'/>"
+                     "<xsl:number level='any' count='*'/>-<xsl:number level='multiple' count='*' format='1.1'/>-<xsl:value-of select=\"count(key('k', name()))\"/>;</xsl:for-each></n></xsl:template></xsl:stylesheet>");
         f.add("xml", "<a><b/><b/></a>");
         t.clearStylesheetParams();
         runTransform(t, f, resp, "f.");
